@@ -104,7 +104,9 @@ CLAIMED['C17'] = dict(
         "number of levels and, with hottest beta 0, every rebuilt beta lies strictly between 0 and its colder neighbour (order and range kept); "
         "make_betas_ladder stays in [1/maxtemp,1]. Float instance run against the real setter, setup_annealing, every annealer call of real "
         "samplers and make_betas_ladder; level betas vs ladder vs sampler.betas compared after every iteration.",
-   note=NUM_NOTE + "Ladders with repeated betas (log of a zero temperature gap) are outside the order theorem's premises.",
+   note=NUM_NOTE + "Ladders with repeated betas (log of a zero temperature gap) are outside the order theorem's premises. Source tie "
+        "(Props/C17_src.v): decay, clip, gap step and beta recursion of DynamicalAnnealer as written in /repo today are regenerated on every run "
+        "(tools/py2coq_num.py, which also checks the loop ranges and the immediate assignment to the level) and proved equal to Ladder.v over the reals.",
    technique="Coq proof (insertion-sort correctness, invariant by induction over annealer calls, Reals inequalities) + vm_compute correspondence",
    ref="DESIGN.md section 3, C17")
 
